@@ -19,9 +19,9 @@ ASSUMPTIONS = ["an interval is compared as [start of its first end, end of its l
 
 
 def gen_cases(tier, seed):
-    cases = S.gen(tier, seed, "C02", 6000, 120000)
+    cases = S.gen(tier, seed, "C02", 4500, 120000)
     r = C.rng(seed, "C02g")
-    for _ in range(40000 if tier == "thorough" else 3000):
+    for _ in range(40000 if tier == "thorough" else 2500):
         c, t = G.expression(r)
         cases.append({"g": "grammar/" + c.split("/")[0], "t": t, "ts": r.choice(["2021-03-10T12:43:30", "2020-02-29T23:59:59", "2019-12-31T08:00:00", "2024-02-28T23:10:00"]),
                       "o": {"latent_time": True, "max_stack_depth": r.choice([10, 10, 0]), "relative_match_len": 1.0, "scorer": "shipped", "debug": False}})
